@@ -31,7 +31,7 @@ import typing
 from dataclasses import dataclass, field
 import re
 
-from ttconv.config import ModuleConfiguration
+from ttconv.config import ModuleConfiguration, decode_bool
 import ttconv.style_properties as styles
 from ttconv.imsc import utils
 from ttconv.time_code import SmpteTimeCode
@@ -72,9 +72,9 @@ def _decode_max_row_count(value: typing.Optional[str]) -> typing.Optional[typing
 class STLReaderConfiguration(ModuleConfiguration):
   """STL reader configuration"""
 
-  disable_fill_line_gap: bool = field(default=False, metadata={"decoder": bool})
+  disable_fill_line_gap: bool = field(default=False, metadata={"decoder": decode_bool})
   program_start_tc: typing.Optional[str] = field(default=None, metadata={"decoder": _decode_start_tc})
-  disable_line_padding: bool = field(default=False, metadata={"decoder": bool})
+  disable_line_padding: bool = field(default=False, metadata={"decoder": decode_bool})
   font_stack: typing.Optional[typing.Tuple[typing.Union[str, styles.GenericFontFamilyType]]] = \
                   field(default=None, metadata={"decoder": _decode_font_stack})
   max_row_count: typing.Optional[typing.Union[int, str]] = field(default=None, metadata={"decoder": _decode_max_row_count})
